@@ -469,6 +469,8 @@ def main(argv):
     harnesses = [h for h in prop.HARNESSES if a.tier == "thorough" or h.tier == "quick"]
     if a.only:
         harnesses = [h for h in harnesses if re.search(a.only, h.name)]
+    if getattr(prop, "JOBS", None) and "VERIF_JOBS" not in os.environ:
+        a.jobs = min(a.jobs, prop.JOBS)
     scratch = make_scratch(pid)
     logdir = os.path.join(VERIF, "logs", pid)
     shutil.rmtree(logdir, ignore_errors=True)
